@@ -467,7 +467,7 @@ pub type Offset = usize;''')
                         'within(old(input).rv(), input.rv()), '
                         'arange_skip(old(input).rv(), address_size as nat) == (input.rv().start - old(input).rv().start) + arange_skip(input.rv(), address_size as nat), '
                         'decreases input.rv().len'},
-              before=[('if tuple_length > input.len() {', 'let ghost cur = input.rv();')],
+              before=[(('if tuple_length > input.len() {', 'if input.len() < tuple_length {', 'if input.len() <= tuple_length {', 'if tuple_length >= input.len() {'), 'let ghost cur = input.rv();')],
               after=[('let range = Range { begin, end: 0 };',
                       'proof { let a = address_size as nat; let nxt = RView { root: cur.root, start: cur.start + 2 * a, len: (cur.len - 2 * a) as nat, be: cur.be }; '
                       'assert(nxt == input.rv()); assert(begin == 0 && length == 0 ==> arange_skip(cur, a) == 2 * a + arange_skip(nxt, a)); '
